@@ -283,6 +283,23 @@ func run(in Input) (res lib.Result) {
 	prevDump2, prevIter2 := prev.VerifDump(), trieu.Iter(prev)
 	diffDump, diffIter := diff.VerifDump(), trieu.Iter(diff)
 
+	// payloads alive at the same time, as in the upstream queue: produce A and D, then payloads of other tries
+	// (a larger and a smaller one), and only then decode A and D
+	payloadA := cur.Clone(in.M, in.D).Bytes()
+	payloadD := diff.Bytes()
+	larger := build(append(append(append([]Op{}, in.Cur...), in.Prev...), Op{K: []byte("zzzz;larger;payload;with;a;long;tail"), V: 77, M: true}), "")
+	_ = larger.Clone(3, 2).Bytes()
+	_ = build([]Op{{K: []byte("s"), V: 1, M: true}}, "").Bytes()
+	_ = prev.Bytes()
+	decode := func(p []byte) string {
+		t2, err := transporttrie.Deserialize(bytes.NewReader(p))
+		if err != nil || t2 == nil {
+			return "None"
+		}
+		return lib.Some(trieu.CoqKVs(trieu.Iter(t2)))
+	}
+	scaledHeld, diffHeld := decode(payloadA), decode(payloadD)
+
 	diffRT := roundTrip(diff)
 	scaled := roundTrip(cur.Clone(in.M, in.D))
 
@@ -293,7 +310,8 @@ func run(in Input) (res lib.Result) {
 		"; c_cur_dump2 := " + trieu.Coq(curDump2) + "; c_cur_iter2 := " + trieu.CoqKVs(curIter2) +
 		"; c_prev_dump2 := " + trieu.Coq(prevDump2) + "; c_prev_iter2 := " + trieu.CoqKVs(prevIter2) +
 		"; c_diff_dump := " + trieu.Coq(diffDump) + "; c_diff_iter := " + trieu.CoqKVs(diffIter) +
-		"; c_diff_rt := " + diffRT + "; c_scaled := " + scaled + " |}"
+		"; c_diff_rt := " + diffRT + "; c_scaled := " + scaled +
+		"; c_scaled_held := " + scaledHeld + "; c_diff_held := " + diffHeld + " |}"
 
 	// features: did a key of prev that cur does not have force a split; did a count underflow
 	curSet, diffSet := trieu.NodeSet(curDump), trieu.NodeSet(diffDump)
